@@ -5,7 +5,7 @@
 
 use super::c05_oracle::{Book, Expect, pat_fill};
 use super::c05_peers::*;
-use super::{ConnOut, Cx, ScenarioOut, pick_len, size_class};
+use super::{ConnOut, Cx, MedEvidence, ScenarioOut, WINDOW, med_split, med_sums, pick_len, size_class};
 use crate::common::*;
 use crate::oracle::{self, SpecHeader};
 use futures_util::{SinkExt, StreamExt};
@@ -29,6 +29,8 @@ pub enum Mode {
     Healthy,
     Stall,
     WriteTimeout,
+    /// write timeout provoked by a pipelined stream of MEDIUM responses (sizes straddling the 8 KiB buffer)
+    WriteTimeoutMedium,
 }
 
 #[derive(Default)]
@@ -102,6 +104,30 @@ struct Req {
     len: usize,
     pushes: u32,
     push_len: usize,
+    /// index into ROUTE_PADS: the route (= query echoed into the response) is "/gen" + padding
+    route: usize,
+}
+
+/// Registered routes: "/gen" and longer aliases, so the response's query length varies.
+const ROUTE_PADS: [usize; 6] = [0, 60, 300, 1200, 2500, 3900];
+
+fn route_of(i: usize) -> String {
+    let mut r = String::from("/gen");
+    if ROUTE_PADS[i] > 0 {
+        r.push('/');
+        for _ in 1..ROUTE_PADS[i] {
+            r.push('r');
+        }
+    }
+    r
+}
+
+fn gen_router(log: &Arc<HandlerLog>, off_reader: bool) -> repe::Router {
+    let mut router = repe::Router::new();
+    for i in 0..ROUTE_PADS.len() {
+        router = router.with_erased_handler(&route_of(i), Arc::new(GenHandler { log: log.clone(), off_reader }));
+    }
+    router
 }
 
 fn req_bytes(r: &Req) -> Vec<u8> {
@@ -115,11 +141,11 @@ fn req_bytes(r: &Req) -> Vec<u8> {
     for i in 0..4 {
         b.push(((r.push_len as u32) >> (8 * i)) as u8);
     }
-    oracle::frame(SpecHeader { spec: oracle::SPEC, version: 1, id: r.id, query_format: 1, body_format: 0, ..Default::default() }, b"/gen", &b)
+    oracle::frame(SpecHeader { spec: oracle::SPEC, version: 1, id: r.id, query_format: 1, body_format: 0, ..Default::default() }, route_of(r.route).as_bytes(), &b)
 }
 
 fn book_add(book: &mut Book, r: &Req) {
-    book.add_by_id(r.id, Expect { token: r.id, kind: "server response", notify: 0, query: b"/gen".to_vec(), body_len: r.len, fixed_id: Some(r.id) });
+    book.add_by_id(r.id, Expect { token: r.id, kind: "server response", notify: 0, query: route_of(r.route).into_bytes(), body_len: r.len, fixed_id: Some(r.id) });
     for j in 0..r.pushes as u64 {
         let tk = push_token(r.id, j);
         book.add_by_query(Expect { token: tk, kind: "server-pushed notify", notify: 1, query: push_method(tk).into_bytes(), body_len: r.push_len, fixed_id: Some(0) });
@@ -127,7 +153,7 @@ fn book_add(book: &mut Book, r: &Req) {
 }
 
 fn resp_len(r: &Req) -> u64 {
-    (48 + 4 + r.len) as u64
+    (48 + route_of(r.route).len() + r.len) as u64
 }
 
 fn gen_reqs(rng: &mut Rng, base: u64, n: usize, left: &mut usize, thorough: bool, pushes: bool) -> Vec<Req> {
@@ -135,7 +161,7 @@ fn gen_reqs(rng: &mut Rng, base: u64, n: usize, left: &mut usize, thorough: bool
         .map(|i| {
             let len = pick_len(rng, 4, left, thorough);
             let (p, pl) = if pushes && rng.chance(1, 2) { (1 + rng.below(3) as u32, pick_len(rng, 30, left, false).min(300_000)) } else { (0, 0) };
-            Req { id: base + i as u64 + 1, len, pushes: p, push_len: pl }
+            Req { id: base + i as u64 + 1, len, pushes: p, push_len: pl, route: 0 }
         })
         .collect()
 }
@@ -145,7 +171,7 @@ fn max_wall(cx: &Cx) -> Duration {
 }
 
 fn small_req(rng: &mut Rng, id: u64) -> Req {
-    Req { id, len: rng.usize_below(3000), pushes: 0, push_len: 0 }
+    Req { id, len: rng.usize_below(3000), pushes: 0, push_len: 0, route: 0 }
 }
 
 // ------------------------------------------------------------------------------------------------
@@ -157,17 +183,18 @@ pub fn tcp_server(cx: &Cx, rng: &mut Rng, kind: SrvKind, mode: Mode) -> Scenario
         Mode::Healthy => ("none", "healthy"),
         Mode::Stall => ("stall", "stall"),
         Mode::WriteTimeout => ("write_timeout", "write_timeout"),
+        Mode::WriteTimeoutMedium => ("write_timeout", "write_timeout.medium_stream"),
     };
     let mut out = ScenarioOut::new(ep, cause, &format!("{ep}.{mname}"));
     let log = Arc::new(HandlerLog::default());
-    let router = repe::Router::new().with_erased_handler("/gen", Arc::new(GenHandler { log: log.clone(), off_reader: false }));
+    let router = gen_router(&log, false);
     let small = mode != Mode::Healthy || rng.chance(1, 3);
     // below ~32 KiB the loopback path degenerates into persist-timer probing after a stall (minutes per MiB)
     let sndbuf = if small { Some(*rng.pick(&[65536usize, 131072])) } else { None };
     let rcvbuf = if small { Some(*rng.pick(&[32768usize, 65536, 131072])) } else { None };
     let t_ms = rng.range(120, 250);
     let wt = match mode {
-        Mode::WriteTimeout => Some(Duration::from_millis(t_ms)),
+        Mode::WriteTimeout | Mode::WriteTimeoutMedium => Some(Duration::from_millis(t_ms)),
         _ => *rng.pick(&[None, Some(Duration::from_secs(60))]),
     };
     let (l, addr) = match listener(None, sndbuf) {
@@ -197,6 +224,8 @@ pub fn tcp_server(cx: &Cx, rng: &mut Rng, kind: SrvKind, mode: Mode) -> Scenario
     }
     if mode == Mode::WriteTimeout {
         one_conn_write_timeout(cx, rng, &mut out, addr, rcvbuf, sndbuf, t_ms);
+    } else if mode == Mode::WriteTimeoutMedium {
+        one_conn_medium_stream(cx, rng, &mut out, addr, rcvbuf, sndbuf, t_ms);
     } else {
         let nconn = 1 + rng.usize_below(3);
         let mut left: usize = if cx.thorough { 96 << 20 } else { 20 << 20 };
@@ -300,7 +329,7 @@ fn one_conn_write_timeout(cx: &Cx, rng: &mut Rng, out: &mut ScenarioOut, addr: s
     let big_len = if cx.thorough { *rng.pick(&[4usize << 20, 8 << 20, 32 << 20]) } else { *rng.pick(&[1usize << 20, 4 << 20]) } + rng.usize_below(3) - 1;
     let x = 1 + rng.below((big_len as u64 / 2).min(200_000));
     let warm: Vec<Req> = (0..1 + rng.usize_below(4)).map(|i| small_req(rng, base + 1 + i as u64)).collect();
-    let big = Req { id: base + 100, len: big_len, pushes: 0, push_len: 0 };
+    let big = Req { id: base + 100, len: big_len, pushes: 0, push_len: 0, route: 0 };
     let during: Vec<Req> = (0..rng.usize_below(3)).map(|i| small_req(rng, base + 200 + i as u64)).collect();
     let further: Vec<Req> = (0..3).map(|i| small_req(rng, base + 300 + i as u64)).collect();
     out.ident = hash_of(&(rcvbuf, sndbuf, size_class(big_len), x / 50_000, warm.len(), during.len()));
@@ -388,13 +417,153 @@ fn one_conn_write_timeout(cx: &Cx, rng: &mut Rng, out: &mut ScenarioOut, addr: s
     out.conns.push(ConnOut { label: "conn0".into(), book, must_see: must, record, end, victim: Some(big.id) });
 }
 
+/// The server's write timeout is provoked by a pipelined stream of MEDIUM responses (sizes straddling the
+/// 8 KiB write buffer, query length varied through route aliases) to a peer that stopped reading; the
+/// requests behind the interrupted response are already queued (the server meets them while the peer is
+/// still stalled); then the peer drains and sends FURTHER requests on the same connection.
+fn one_conn_medium_stream(cx: &Cx, rng: &mut Rng, out: &mut ScenarioOut, addr: std::net::SocketAddr, rcvbuf: Option<usize>, sndbuf: Option<usize>, t_ms: u64) {
+    let base = (rng.next_u64() >> 30) << 12;
+    let x = rng.below(30_000);
+    let n = if cx.thorough { 500 } else { 300 };
+    let warm: Vec<Req> = (0..1 + rng.usize_below(3)).map(|i| small_req(rng, base + 1 + i as u64)).collect();
+    let sums = med_sums(rng, n);
+    let stream: Vec<Req> = sums
+        .iter()
+        .enumerate()
+        .map(|(i, s)| {
+            // the route set is fixed: pick the alias nearest to the wished query length
+            let (q, _) = med_split(rng, *s, 4);
+            let route = (0..ROUTE_PADS.len()).min_by_key(|j| (4 + ROUTE_PADS[*j]).abs_diff(q)).unwrap();
+            let ql = 4 + ROUTE_PADS[route];
+            Req { id: base + 16 + i as u64, len: s - ql, pushes: 0, push_len: 0, route }
+        })
+        .collect();
+    let further: Vec<Req> = (0..4)
+        .map(|i| if i == 1 { Req { id: base + 3000 + i as u64, len: 8145 + rng.usize_below(48) - 4, pushes: 0, push_len: 0, route: 0 } } else { small_req(rng, base + 3000 + i as u64) })
+        .collect();
+    out.ident = hash_of(&("medium", rcvbuf, sndbuf, x / 8192, warm.len(), sums[..16].to_vec()));
+    out.params = json!({"server_sndbuf": sndbuf, "peer_rcvbuf": rcvbuf, "write_timeout_ms": t_ms, "pipelined_medium_requests": n, "peer_stalls_after_bytes_of_stream": x,
+        "warmup_requests": warm.len(), "further_requests_after_drain": further.len()});
+    let mut book = Book::default();
+    warm.iter().chain(&stream).chain(&further).for_each(|r| book_add(&mut book, r));
+    let mut must: Vec<u64> = vec![];
+    let mut med = MedEvidence::default();
+    let mut victim = None;
+    let ctl = Ctl::new();
+    let mut s = match std::net::TcpStream::connect(addr) {
+        Ok(s) => s,
+        Err(e) => {
+            out.trouble.push(format!("connect: {e}"));
+            return;
+        }
+    };
+    if let Some(b) = rcvbuf {
+        set_sockbuf(s.as_raw_fd(), libc::SO_RCVBUF, b);
+    }
+    let _ = s.set_nodelay(true);
+    let _ = s.set_write_timeout(Some(Duration::from_secs(5)));
+    let rd = s.try_clone().expect("clone");
+    let (c2, r2, mw) = (ctl.clone(), rng.fork(9), max_wall(cx));
+    let h = std::thread::spawn(move || Some(tcp_recorder(rd, c2, false, r2, mw)));
+    let written = Arc::new(AtomicU64::new(0));
+    let nwarm = warm.len() as u64;
+    let mut script = || -> Result<(), String> {
+        for r in &warm {
+            s.write_all(&req_bytes(r)).map_err(|e| format!("warm-up write: {e}"))?;
+        }
+        if !wait_until(Duration::from_secs(15), || ctl.frames.load(SeqCst) >= nwarm) {
+            return Err(format!("only {} of {nwarm} warm-up responses arrived", ctl.frames.load(SeqCst)));
+        }
+        must.extend(warm.iter().map(|r| r.id));
+        out.ops_ok += nwarm;
+        let b0: u64 = warm.iter().map(resp_len).sum();
+        if !wait_until(Duration::from_secs(5), || ctl.bytes.load(SeqCst) == b0) {
+            return Err(format!("peer recorded {} bytes after warm-up, expected {b0}", ctl.bytes.load(SeqCst)));
+        }
+        ctl.hold_at(b0 + x);
+        // the requests are written from their own thread: once the server is stuck in a response write it stops reading
+        let hw = {
+            let mut w = s.try_clone().map_err(|e| format!("clone: {e}"))?;
+            let _ = w.set_write_timeout(Some(Duration::from_millis(500)));
+            let frames: Vec<Vec<u8>> = stream.iter().map(req_bytes).collect();
+            let written = written.clone();
+            std::thread::spawn(move || {
+                for f in frames {
+                    if w.write_all(&f).is_err() {
+                        break;
+                    }
+                    written.fetch_add(1, SeqCst);
+                }
+            })
+        };
+        if !wait_until(Duration::from_secs(15), || ctl.stalled.load(SeqCst)) {
+            out.trouble.push("peer never reached the stall point inside the response stream".into());
+        }
+        // stuck = nothing more can be written to the server, or everything was; then let the write timeout expire (several times over)
+        let _ = join_bounded(hw, Duration::from_secs(30));
+        std::thread::sleep(Duration::from_millis(4 * t_ms + 300));
+        // the peer drains everything ...
+        ctl.release();
+        wait_quiet(&ctl, Duration::from_millis(200), Duration::from_secs(15));
+        // ... and keeps using the connection
+        for r in &further {
+            match s.write_all(&req_bytes(r)) {
+                Ok(()) => out.further_ok += 1,
+                Err(_) => out.further_err += 1,
+            }
+            wait_quiet(&ctl, Duration::from_millis(60), Duration::from_secs(3));
+        }
+        Ok(())
+    };
+    if let Err(e) = script() {
+        out.trouble.push(e);
+    }
+    ctl.release();
+    ctl.finish_when_quiet(400);
+    let (record, end) = match join_bounded(h, Duration::from_secs(40)) {
+        Some(Some((b, e))) => (Record::Stream(b), e),
+        _ => {
+            out.trouble.push("recorder did not finish".into());
+            (Record::Stream(vec![]), End::Deadline)
+        }
+    };
+    // event evidence: responses are written in request order, so the first request (fully written to the
+    // server) whose response is not whole on the wire is the interrupted one
+    let nwritten = written.load(SeqCst) as usize;
+    if let Record::Stream(b) = &record {
+        let w = super::c05_oracle::walk(b, &book);
+        let whole: std::collections::HashSet<u64> = w.seen.iter().map(|s| s.token).collect();
+        med.stream_sums = stream[..nwritten].iter().map(|r| 4 + ROUTE_PADS[r.route] + r.len).collect();
+        if let Some((i, r)) = stream[..nwritten].iter().enumerate().find(|(_, r)| !whole.contains(&r.id)) {
+            victim = Some(r.id);
+            med.frames_before_interruption = i as u64;
+            med.interrupted_sums.push(4 + ROUTE_PADS[r.route] + r.len);
+            med.sends_after_first_interruption = (nwritten - i - 1) as u64;
+        } else {
+            must.extend(stream[..nwritten].iter().map(|r| r.id));
+        }
+        out.ops_ok += whole.len() as u64;
+    }
+    out.fault_triggered = Some(victim.is_some());
+    if victim.is_none() {
+        out.trouble.push(format!("every one of the {nwritten} pipelined medium responses arrived whole: the write timeout never took effect"));
+    }
+    out.params["requests_written_to_server"] = json!(nwritten);
+    out.params["responses_before_interrupted_one"] = json!(med.frames_before_interruption);
+    out.params["interrupted_response_query_plus_body"] = json!(med.interrupted_sums);
+    out.params["interrupted_in_window"] = json!(med.interrupted_sums.iter().filter(|s| WINDOW.contains(s)).count());
+    out.med = Some(med);
+    drop(s);
+    out.conns.push(ConnOut { label: "conn0".into(), book, must_see: must, record, end, victim });
+}
+
 // ------------------------------------------------------------------------------------------------
 // WebSocketServer: responses from concurrent off-reader handlers + handler-pushed notifies
 
 pub fn ws_server(cx: &Cx, rng: &mut Rng, stall: bool, off_reader: bool) -> ScenarioOut {
     let mut out = ScenarioOut::new("ws_server", if stall { "stall" } else { "none" }, &format!("ws_server.{}.{}", if stall { "stall" } else { "healthy" }, if off_reader { "offreader" } else { "inline" }));
     let log = Arc::new(HandlerLog::default());
-    let router = repe::Router::new().with_erased_handler("/gen", Arc::new(GenHandler { log: log.clone(), off_reader }));
+    let router = gen_router(&log, off_reader);
     let small = stall || rng.chance(1, 3);
     // below ~32 KiB the loopback path degenerates into persist-timer probing after a stall (minutes per MiB)
     let sndbuf = if small { Some(*rng.pick(&[65536usize, 131072])) } else { None };
